@@ -109,6 +109,14 @@ func script(sc scenario, f cli.Family, budget time.Duration) []timed {
 	case "reject+accept":
 		reject(sc.T / 3)
 		add(sc.TA, "inject:matching")
+	case "junk+accept": // malformed datagrams of three kinds first (what the client does with them is C10's business; that it
+		// goes on reading whole datagrams afterwards is the point here), then the acceptable response
+		for i, k := range []string{"undecodable", "empty", "wrong-xid", "undecodable"} {
+			if at := sc.T/7 + time.Duration(i)*sc.T/11; at != sc.TA && at != sc.TC {
+				add(at, "inject:"+k)
+			}
+		}
+		add(sc.TA, "inject:matching")
 	}
 	switch sc.Event {
 	case "cancel":
@@ -288,7 +296,7 @@ func judge(r *mon.Rec, t *testing.T, sc scenario) {
 		what string // response | ctx | closed | noresp
 	}
 	e := exp{budget, "noresp"}
-	hasAccept := (sc.Traffic == "accept" || sc.Traffic == "reject+accept") && (sc.Fault == 0 || sc.TA < sc.Fault)
+	hasAccept := (sc.Traffic == "accept" || sc.Traffic == "reject+accept" || sc.Traffic == "junk+accept") && (sc.Fault == 0 || sc.TA < sc.Fault)
 	if hasAccept && sc.TA < e.at {
 		e = exp{sc.TA, "response"}
 	}
@@ -416,9 +424,9 @@ func grid(quick bool) []scenario {
 			for n := 1; n <= 5; n++ {
 				B := T * time.Duration((int64(1)<<uint(n))-1)
 				instants := []time.Duration{1, T / 3, T - 1, T + 1, 2*T + T/2, B - 1, B + T}
-				for _, tr := range []string{"instant-reply", "silence", "accept", "reject-T/7", "reject-T/2", "reject-T-1", "burst", "mixture", "reject+accept"} {
+				for _, tr := range []string{"instant-reply", "silence", "accept", "reject-T/7", "reject-T/2", "reject-T-1", "burst", "mixture", "reject+accept", "junk+accept"} {
 					tas := []time.Duration{-1}
-					if tr == "accept" || tr == "burst" || tr == "reject+accept" {
+					if tr == "accept" || tr == "burst" || tr == "reject+accept" || tr == "junk+accept" {
 						tas = instants[:6]
 					}
 					for _, ta := range tas {
